@@ -1,6 +1,7 @@
 package main
 
 import (
+	"go/types"
 	"strings"
 
 	"golang.org/x/tools/go/ssa"
@@ -121,4 +122,127 @@ func computeLogOnly(fn *ssa.Function) map[ssa.Instruction]bool {
 		}
 	}
 	return skip
+}
+
+// ---------------------------------------------------------------- local cells across opaque calls
+
+// escapesAt reports whether the address of the local cell x (or a pointer derived from it) may
+// have been handed to other code by an instruction that can execute before `at`. A cell that has
+// not escaped yet cannot be written by a call whose body is unknown.
+func escapesAt(x ssa.Value, at ssa.Instruction, depth int) bool {
+	if depth > 4 {
+		return true
+	}
+	refs := x.Referrers()
+	if refs == nil {
+		return true
+	}
+	for _, r := range *refs {
+		switch u := r.(type) {
+		case *ssa.DebugRef:
+			continue
+		case *ssa.Store:
+			if u.Val == x && canPrecede(u, at) {
+				return true
+			}
+			continue
+		case *ssa.UnOp:
+			continue // load
+		case *ssa.FieldAddr:
+			if escapesAt(u, at, depth+1) {
+				return true
+			}
+			continue
+		case *ssa.IndexAddr:
+			if escapesAt(u, at, depth+1) {
+				return true
+			}
+			continue
+		}
+		if canPrecede(r, at) {
+			return true
+		}
+	}
+	return false
+}
+
+// canPrecede: instruction u may execute before (or is) instruction at.
+func canPrecede(u, at ssa.Instruction) bool {
+	ub, ab := u.Block(), at.Block()
+	if ub == nil || ab == nil {
+		return true
+	}
+	if ub == ab {
+		// same block: u precedes at if it comes first; if the block is in a cycle, a later u can
+		// also precede at on the next iteration
+		for _, in := range ub.Instrs {
+			if in == u {
+				return true
+			}
+			if in == at {
+				break
+			}
+		}
+		return blockReaches(ub, ub)
+	}
+	return blockReachesFrom(ub, ab)
+}
+
+// blockReachesFrom: is `to` reachable from `from` along CFG edges (from != to)?
+func blockReachesFrom(from, to *ssa.BasicBlock) bool {
+	seen := map[*ssa.BasicBlock]bool{}
+	var dfs func(b *ssa.BasicBlock) bool
+	dfs = func(b *ssa.BasicBlock) bool {
+		for _, s := range b.Succs {
+			if s == to {
+				return true
+			}
+			if !seen[s] {
+				seen[s] = true
+				if dfs(s) {
+					return true
+				}
+			}
+		}
+		return false
+	}
+	return dfs(from)
+}
+
+// blockReaches: is b on a cycle?
+func blockReaches(b, _ *ssa.BasicBlock) bool { return blockReachesFrom(b, b) }
+
+// havocCall is havocAll for a call instruction whose effect is unknown: local cells of the
+// function being translated whose address has not escaped before the call keep their contents.
+func (vc *VC) havocCall(h *Heap, why string, at ssa.Instruction, keepGhost ...string) {
+	old := h.clone()
+	vc.havocAll(h, why, keepGhost...)
+	if at == nil || at.Parent() != vc.fn {
+		return
+	}
+	for _, b := range vc.fn.Blocks {
+		for _, in := range b.Instrs {
+			a, ok := in.(*ssa.Alloc)
+			if !ok {
+				continue
+			}
+			v, have := vc.vals[a]
+			if !have || len(v) != 1 || !strings.HasPrefix(v[0], "(mkptr ") {
+				continue
+			}
+			if !canPrecede(a, at) || escapesAt(a, at, 0) {
+				continue
+			}
+			obj := ptrAddr(v[0]).Obj
+			et := a.Type().Underlying().(*types.Pointer).Elem()
+			done := map[Sort]bool{}
+			for _, l := range vc.L.Leaves(et) {
+				if done[l.Sort] {
+					continue
+				}
+				done[l.Sort] = true
+				vc.assume(eq(sel(h.H[l.Sort], obj), sel(old.H[l.Sort], obj)))
+			}
+		}
+	}
 }
